@@ -128,6 +128,11 @@ def c07_stream(tier, seed):
         else:
             kw["length"] = rng.below(20)
         er = [(k, G.gen_value(rng, 3)) for k in rng.shuffle([b"inf", b"info ", b"infoz", b"announce", b"zz", b"a", b"info\x00", b"d4:info", b"4:info"])[:rng.range(0, 5)]]
+        if rng.chance(1, 3):
+            # a sibling of `info` that is itself a well-formed info dictionary of ANOTHER torrent: only the key named
+            # exactly `info` may determine the info-hash
+            other = G.meta_doc(name=b"other", piece_length=2, length=rng.below(6))
+            er.append((rng.choice([b"info.utf-8", b"info.utf8", b"info2", b"Info"]), [v for k, v in other[1] if k == b"info"][0]))
         ei = [(k, G.gen_value(rng, 3)) for k in rng.shuffle([b"private", b"source", b"x", b"zzz", b"e", b"de", b"4:name"])[:rng.range(0, 4)]]
         out.append(("load " + hx(G.benc(G.meta_doc(extra_root=er, extra_info=ei, **kw))), "valid+decoys"))
     return out
